@@ -1588,6 +1588,9 @@ func main() {
 		}
 		par, serial = keep(par), keep(serial)
 	}
+	if os.Getenv("C18_GROUP") == "" || os.Getenv("C18_GROUP") == "midstream" {
+		midStreamPass(methods)
+	}
 	c.ParallelFor(len(par), func(i int) { runGroup(par[i], cells) })
 	for _, g := range serial {
 		runGroup(g, cells)
